@@ -119,6 +119,9 @@ func (node *SimpleNode) AddNode(n Node) {
 func (node *SimpleNode) DeleteNode(n Node) (didDelete bool) {
 	node.children, didDelete = node.children.deleteNode(n)
 
+	// See AddNode.
+	nodeCache = &sync.Map{}
+
 	return
 }
 
@@ -227,6 +230,9 @@ func (node *SimpleNode) GEDCOMLine(indent int) string {
 // You can use SetNodes(nil) to remove all child nodes.
 func (node *SimpleNode) SetNodes(nodes Nodes) {
 	node.children = nodes
+
+	// See AddNode.
+	nodeCache = &sync.Map{}
 }
 
 func (node *SimpleNode) RawSimpleNode() *SimpleNode {
